@@ -104,7 +104,10 @@ def _run(tape):
     unkillable = [p.pid for p in mp.processes if p.kill_failed]
     if unkillable:
         run.probe('kill_failed_worker_lives_on')
-    left = [pid for pid in (out.alive_after_grace or []) if pid not in unkillable]
+    # (Ctrl-C may cut the parent's own clean-up short - the bounded join of a worker that cannot exit is interruptible like any
+    # wait - and such a worker does not die of its SIGINT either: not claimed)
+    stuck = set(p.pid for p in mp.processes if p.exit_hangs) if getattr(out, 'interrupted', False) else set()
+    left = [pid for pid in (out.alive_after_grace or []) if pid not in unkillable and pid not in stuck]
     # an unkillable worker is excused only while its replay lasts: one whose replay returns (a late answer) must be gone
     # some time after the run ended; one that hangs for ever cannot be
     last_played = {}
